@@ -2,6 +2,11 @@
 property, extra trusted-base entries, what is partial."""
 
 PROPS = {
+    "C05": {
+        "suites": ["wal"],
+        "partial": "the refinement theorem is about the L2 model (logical segment files; sealing decided by byte sizes, which the proof does not depend on) and programs whose indexes stay below 2^64-1; rotation is performed before the next call (the harness inserts a barrier); model = code is sampled exhaustively over a reduced alphabet to a length bound and randomly beyond, on simfs and on the real filesystem + BoltDB",
+        "assumptions": ["no segment file exceeds 4 GiB (uint32 offsets; documented limit)", "immutable.SortedMap as a sorted list with the Seek/Prev semantics read from its source"],
+    },
     "C11": {
         "suites": ["codec", "segment"],
         "partial": "the universal claim over all byte strings is carried by totality and bound theorems about the model (decoder, scan, read path); that the Go code has no panic site outside the modelled ones is established by the malformed-input stream of the codec/segment suites (run in-process with recover), not by proof; Open-level damage classes and handle release after a failed Open are exercised by the wal-level suites when present",
@@ -11,6 +16,26 @@ PROPS = {
         "suites": ["codec", "wal"],
         "partial": "time.Time is modelled by its MarshalBinary wire form (Go stdlib, trusted); pool aliasing is carried by the generated fact decoderBytesCopies plus the monitor that scribbles over the input buffer after Decode; StoreLogs/GetLog round trip and the codec-ID matrix across reopen are carried by the wal suite (correspondence + monitor)",
         "assumptions": ["time.Time.MarshalBinary/UnmarshalBinary as in Go 1.23 (wire form 15/16 bytes)", "bytes.Buffer.Write never fails"],
+    },
+    "C16": {
+        "suites": ["verifier"],
+        "partial": "theorems are per node over the reference log as underlying store (the WAL equals it by C05); multi-node statements are composed from the per-node invariant (running sum = chain over stored entries) and the verdict theorems rather than stated as one cluster-level theorem; ranges modified while their verification is outstanding are outside the property",
+        "assumptions": ["fasthash/fnv1a = byte-wise FNV-1a with big-endian AddUint64 (compared differentially via the `sum` op)", "underlying store behaves as the contiguous reference log"],
+    },
+    "C17": {
+        "suites": ["verifier"],
+        "partial": "detection is proved up to hash collisions (chain inequality is a hypothesis) and with certainty for single-byte substitutions; Data‖Extensions are hashed without a separator, so moving bytes across that boundary is a structural collision outside the single-field quantifier (documented observation)",
+        "assumptions": ["fasthash/fnv1a as modelled"],
+    },
+    "C18": {
+        "suites": ["verifier"],
+        "partial": "never-blocks is a statement about the model's channel protocol (non-blocking select with default, fact not extracted) plus the harness measuring that StoreLogs returns while ReportFn is blocked; goroutine scheduling is sampled, not proved",
+        "assumptions": ["Go channel semantics: 1-buffered channel, select with default"],
+    },
+    "C19": {
+        "suites": ["migrate"],
+        "partial": "destination modelled as the reference log (equal to the WAL by C05; raft-boltdb and InmemStore destinations are covered by the correspondence only); progress-channel closure is checked on the real code by the monitor, not modelled; CopyStable aborts on a source that reports absent keys as an error (raft-boltdb, InmemStore) — an absent standard key has no value to transfer, recorded as an observation in DESIGN §7 (O15)",
+        "assumptions": [],
     },
     "C20": {
         "suites": ["wal", "verifier"],
